@@ -10,7 +10,7 @@ var rawServerDeviations = []string{
 	"frame_unknown_id", "settings_late", "settings_on_stream",
 	"headers_twice", "close_twice", "data_after_close", "no_headers", "more_to_msg", "msg_to_more",
 	"size_too_small", "size_too_big", "size_huge", "nil_frame", "oversize_chunk", "window_overrun",
-	"unary_two_responses", "unary_no_response", "window_update_huge", "window_update_zero",
+	"unary_two_responses", "unary_many_responses", "unary_no_response", "window_update_huge", "window_update_zero",
 	"dup_frame", "drop_frame", "swap_frames", "no_close",
 }
 
@@ -171,6 +171,24 @@ func applyServerDeviation(t *rapid.T, label, kind string, reps []*replyState, c 
 			rs.fs = append(rs.fs[:at], append(extra, rs.fs[at:]...)...)
 			mark(-1) // any non-OK result
 		}
+	case "unary_many_responses":
+		// 3-7 responses to a call that expects one; the caller keeps calling Recv after the failure
+		if !respStreams(r.Shape) && r.Code == 0 && len(r.Resp) == 1 {
+			k := rapid.IntRange(2, 6).Draw(t, label+".extra")
+			at := closeIdx()
+			var extra []RawFrame
+			for j := 0; j < k; j++ {
+				extra = append(extra, chunkFrames(0, rs.tag, 0, wireSize(r.Resp[0]), "msg")...)
+			}
+			rs.fs = append(rs.fs[:at], append(extra, rs.fs[at:]...)...)
+			r.ExtraRecvs = rapid.IntRange(1, 3).Draw(t, label+".again")
+			// half of the callers start reading only when everything, the close included, has arrived
+			r.StallRecv = rapid.Bool().Draw(t, label+".stall")
+			if r.Shape == "unary" {
+				r.Via = "stream" // Recv is the application's to call
+			}
+			mark(-1)
+		}
 	case "unary_no_response":
 		if !respStreams(r.Shape) && r.Code == 0 {
 			var fs []RawFrame
@@ -295,7 +313,7 @@ func genRawServer(t *rapid.T) *Case {
 }
 
 func genRawServerShapes(t *rapid.T) *Case { // C16: call shapes on the client end
-	c := genRawServerWith(t, []string{"unary_two_responses", "unary_no_response", "unary_two_responses", "data_after_close", "dup_frame"}, rapid.IntRange(1, 2).Draw(t, "ndev"), nil)
+	c := genRawServerWith(t, []string{"unary_two_responses", "unary_no_response", "unary_many_responses", "unary_many_responses", "data_after_close", "dup_frame"}, rapid.IntRange(1, 2).Draw(t, "ndev"), nil)
 	c.Prop = "raw_server_shapes"
 	return c
 }
